@@ -66,6 +66,19 @@ impl K8 {
     }
 }
 
+thread_local! {
+    /// look-ahead rows the sequence object was configured with BEFORE being configured for the motif of the case
+    /// (a sequence scanned with a shorter motif first and re-used)
+    static PRE_WRAP: std::cell::Cell<Option<usize>> = std::cell::Cell::new(None);
+}
+
+fn conf<A: Alphabet, C: PositiveLength>(striped: &mut StripedSequence<A, C>, pssm: &ScoringMatrix<A>) {
+    if let Some(w) = PRE_WRAP.with(|x| x.get()) {
+        striped.configure_wrap(w);
+    }
+    striped.configure(pssm);
+}
+
 fn u8_scores<A, C, PS>(ps: &PS, syms: &[A::Symbol], pssm: &ScoringMatrix<A>, dm: &DiscreteMatrix<A>) -> Vec<u8>
 where
     A: Alphabet,
@@ -73,7 +86,7 @@ where
     PS: Score<u8, A, C>,
 {
     let mut striped: StripedSequence<A, C> = Pipeline::<A, Generic>::generic().stripe(syms);
-    striped.configure(pssm);
+    conf(&mut striped, pssm);
     let mut scores = StripedScores::<u8, C>::empty();
     ps.score_into(dm, &striped, &mut scores);
     scores.unstripe().to_vec()
@@ -88,7 +101,7 @@ where
     PS: Score<u8, A, C>,
 {
     let mut striped: StripedSequence<A, C> = Pipeline::<A, Generic>::generic().stripe(syms);
-    striped.configure(pssm);
+    conf(&mut striped, pssm);
     let r = striped.matrix().rows() - striped.wrap();
     let l = syms.len();
     let m = pssm.len();
@@ -117,7 +130,7 @@ where
 
 fn scalar_scores<A: Alphabet>(syms: &[A::Symbol], pssm: &ScoringMatrix<A>, dm: &DiscreteMatrix<A>) -> Vec<u8> {
     let mut striped: StripedSequence<A, U32> = Pipeline::<A, Generic>::generic().stripe(syms);
-    striped.configure(pssm);
+    conf(&mut striped, pssm);
     let valid = if syms.len() >= pssm.len() { syms.len() - pssm.len() + 1 } else { 0 };
     (0..valid).map(|p| dm.score_position(&striped, p)).collect()
 }
@@ -156,6 +169,8 @@ pub struct Case {
     pub matrix: Vec<Vec<f32>>,
     pub seq: Vec<u8>,
     pub origin: String,
+    /// see PRE_WRAP
+    pub pre_wrap: Option<usize>,
 }
 
 impl Case {
@@ -168,6 +183,7 @@ impl Case {
             "seq_ranks": self.seq,
             "seq_text": model::ranks_to_text(letters, &self.seq[..self.seq.len().min(300)]),
             "kernel": k.map(|k| k.name()),
+            "pre_wrap": self.pre_wrap,
         })
     }
     fn from_json(v: &Value) -> Case {
@@ -176,12 +192,20 @@ impl Case {
             matrix: model::matrix_from_json(&v["matrix"]),
             seq: model::ranks_from_json(&v["seq_ranks"]),
             origin: v["origin"].as_str().unwrap_or("").into(),
+            pre_wrap: v["pre_wrap"].as_u64().map(|x| x as usize),
         }
     }
 }
 
 /// Check one case under the given kernels. Returns (evaluations, nontrivial, failures).
 pub fn check_case(case: &Case, kernels: &[K8]) -> (u64, bool, Vec<(String, String, Option<K8>)>) {
+    PRE_WRAP.with(|x| x.set(case.pre_wrap));
+    let r = check_case_inner(case, kernels);
+    PRE_WRAP.with(|x| x.set(None));
+    r
+}
+
+fn check_case_inner(case: &Case, kernels: &[K8]) -> (u64, bool, Vec<(String, String, Option<K8>)>) {
     let mut fails = Vec::new();
     let m = case.matrix.len();
     let l = case.seq.len();
@@ -293,7 +317,7 @@ where
     let dm = pssm.to_discrete();
     let syms = model::to_symbols::<Dna>(&case.seq);
     let mut striped: StripedSequence<Dna, U32> = Pipeline::<Dna, Generic>::generic().stripe(&syms);
-    striped.configure(&pssm);
+    conf(&mut striped, &pssm);
     let r = striped.matrix().rows() - striped.wrap();
     let valid = real.len();
     let a = (r + 1) / 2;
@@ -409,12 +433,66 @@ pub fn check_prefilter(case: &Case) -> (u64, Vec<(String, String, String)>) {
             Ok(None) => {}
         }
     }
+    // the pre-filter inside the real Scanner (block maximum test + candidate selection + exact re-scoring): never loses a hit
+    for arm in cfgs::FORCED {
+        evals += 1;
+        let r = catch(|| with_arm(arm, || scanner_loses(case, &real)));
+        let name = format!("scanner[{}] pre-filter", cfgs::arm_name(arm));
+        match r {
+            Err(p) => fails.push((format!("panic {}", vx_core::util::panic_class(&p)), format!("panic: {}", p), name)),
+            Ok(Some((sig, msg))) => fails.push((sig, msg, name)),
+            Ok(None) => {}
+        }
+    }
     (evals, fails)
+}
+
+/// Scanner runs at thresholds {lowest, median, highest finite real score} x block sizes {1, 256}: every position whose
+/// real score (row-order f32 sum) is finite and >= t must be yielded.
+fn scanner_loses(case: &Case, real: &[f32]) -> Option<(String, String)> {
+    let pssm = model::scoring::<Dna>(&case.matrix);
+    let syms = model::to_symbols::<Dna>(&case.seq);
+    let mut striped: StripedSequence<Dna, U32> = Pipeline::<Dna, Dispatch>::dispatch().stripe(&syms);
+    conf(&mut striped, &pssm);
+    let mut fin: Vec<f32> = real.iter().cloned().filter(|x| x.is_finite()).collect();
+    if fin.is_empty() {
+        return None;
+    }
+    fin.sort_by(|a, b| a.partial_cmp(b).unwrap());
+    let mut ts = vec![fin[0], fin[fin.len() / 2], fin[fin.len() - 1]];
+    ts.dedup();
+    for &t in &ts {
+        for block in [1usize, 256] {
+            let mut sc = lightmotif::scan::Scanner::new(&pssm, &striped);
+            sc.threshold(t);
+            sc.block_size(block);
+            let mut seen = vec![false; real.len()];
+            for _ in 0..real.len() + 3 {
+                match sc.next() {
+                    Some(h) => {
+                        if h.position() < seen.len() {
+                            seen[h.position()] = true;
+                        }
+                    }
+                    None => break,
+                }
+            }
+            if let Some(i) = (0..real.len()).find(|&i| real[i].is_finite() && real[i] >= t && !seen[i]) {
+                return Some((
+                    "scanner loses a hit".into(),
+                    format!("threshold {} (byte threshold {}), block size {}: position {} scores {} but the scanner does not yield it", t, pssm.to_discrete().scale(t), block, i, real[i]),
+                ));
+            }
+        }
+    }
+    None
 }
 
 /// Run clause 3 (pre-filter) on a DNA case and report.
 fn report_prefilter(case: &Case, rep: &mut Report) {
+    PRE_WRAP.with(|x| x.set(case.pre_wrap));
     let (e, fails) = check_prefilter(case);
+    PRE_WRAP.with(|x| x.set(None));
     for _ in 0..e {
         rep.eval_distinct(true);
     }
@@ -509,7 +587,7 @@ pub fn run(ctx: &mut Ctx, rep: &mut Report) {
             "menu",
             "product: all 8^M DNA matrices built from an 8-row menu (incl. rows whose byte image is x.5, so that already M=2 pushes the consensus sum past 255, and a row with a 2^20 common offset), M in 1..=4 (thorough 1..=5), \
              x wildcard column {-inf, row minimum - 1, row mean, above the row maximum} x 14 kernels {generic U16/U32, sse2 U16/U32, avx2 saturating, dispatcher arms, scalar DiscreteMatrix::score_position; generic / avx2 / dispatcher arms block by block through score_rows_into on a reused buffer} \
-             on a de Bruijn word containing EVERY 5^M window (wildcard included) and on windows of it of length M and M+1 (sequence exactly as long as the motif); oracle: u8 >= scale(real) at every position and, for every attainable threshold, real>=t => u8>=scale(t); the PRE-FILTER as the scanner applies it, for {generic, sse2, avx2, dispatcher arms} on row blocks {all, 0..1, 1..a, a..R} of a reused buffer: Maximum<u8>::max of the block >= the largest byte image in the block, and Threshold<u8>::threshold(block, scale(t)) selects every position with real >= t (<= 16 attainable thresholds); \
+             on a de Bruijn word containing EVERY 5^M window (wildcard included; for M >= 3 and the first two wildcard kinds also on the same sequence object configured for a 2-column motif first, i.e. look-ahead rows added in two steps) and on windows of it of length M and M+1 (sequence exactly as long as the motif); oracle: u8 >= scale(real) at every position and, for every attainable threshold, real>=t => u8>=scale(t); the PRE-FILTER as the scanner applies it, for {generic, sse2, avx2, dispatcher arms} on row blocks {all, 0..1, 1..a, a..R} of a reused buffer: Maximum<u8>::max of the block >= the largest byte image in the block, and Threshold<u8>::threshold(block, scale(t)) selects every position with real >= t (<= 16 attainable thresholds); and the real Scanner under each dispatcher arm at thresholds {lowest, median, highest finite real score} x block sizes {1, 256} yields every position with real >= t; \
              evaluations = kernel runs; non-trivial = some window has a finite real score",
         );
         for m in 1..=(if ctx.quick() { 4usize } else { 5 }) {
@@ -538,7 +616,7 @@ pub fn run(ctx: &mut Ctx, rep: &mut Report) {
                             if start + m + extra > seq.len() {
                                 continue;
                             }
-                            let short = Case { alpha: "dna", matrix: matrix.clone(), seq: seq[start..start + m + extra].to_vec(), origin: format!("menu M={} matrix#{} wildcard-kind={} L=M+{}", m, mi, wk, extra) };
+                            let short = Case { alpha: "dna", matrix: matrix.clone(), seq: seq[start..start + m + extra].to_vec(), origin: format!("menu M={} matrix#{} wildcard-kind={} L=M+{}", m, mi, wk, extra), pre_wrap: None };
                             let (e, nt, fails) = check_case(&short, &kd);
                             report_prefilter(&short, rep);
                             for _ in 0..e {
@@ -549,7 +627,7 @@ pub fn run(ctx: &mut Ctx, rep: &mut Report) {
                             }
                         }
                     }
-                    let case = Case { alpha: "dna", matrix, seq: seq.clone(), origin: format!("menu M={} matrix#{} wildcard-kind={}", m, mi, wk) };
+                    let case = Case { alpha: "dna", matrix, seq: seq.clone(), origin: format!("menu M={} matrix#{} wildcard-kind={}", m, mi, wk), pre_wrap: None };
                     let (e, nt, fails) = check_case(&case, &kd);
                     report_prefilter(&case, rep);
                     for _ in 0..e {
@@ -560,6 +638,18 @@ pub fn run(ctx: &mut Ctx, rep: &mut Report) {
                     }
                     for (sig, msg, k) in fails {
                         rep.violation(format!("C08 dna {} {}", k.map(|k| k.name()).unwrap_or("-".into()), sig), msg, || case.json(k));
+                    }
+                    // the same sequence object scanned with a SHORTER motif before (look-ahead rows added in two steps)
+                    if m >= 3 && wk < 2 {
+                        let again = Case { pre_wrap: Some(1), origin: format!("{} reconfigured from 1 look-ahead row", case.origin), ..case.clone() };
+                        let (e, nt, fails) = check_case(&again, &kd);
+                        report_prefilter(&again, rep);
+                        for _ in 0..e {
+                            rep.eval_distinct(nt);
+                        }
+                        for (sig, msg, k) in fails {
+                            rep.violation(format!("C08 dna {} reconfigured {}", k.map(|k| k.name()).unwrap_or("-".into()), sig), msg, || again.json(k));
+                        }
                     }
                 }
             }
@@ -573,7 +663,7 @@ pub fn run(ctx: &mut Ctx, rep: &mut Report) {
         rep.space(
             "wide",
             "wide matrices M in {5,8,16,30,64,255,256,257} (thorough + {12,100,254,300,511,512,513}) x 3 cell flavours whose rounded-up row maxima sum past 255, and log-odds matrices from a count menu (M in {6,15,20}); \
-             sequence = consensus, anti-consensus, every single-substitution neighbour of the consensus (wildcard included) concatenated; same 9 kernels; protein: 5 kernels on M in {3,8,40}",
+             sequence = consensus, anti-consensus, every single-substitution neighbour of the consensus (wildcard included) concatenated, fresh and re-configured from 2 and M/2 look-ahead rows; same 14 kernels + pre-filter; protein: 5 kernels on M in {3,8,40}",
         );
         // 255/256/257: the number of rows reaches the range of the byte (headroom = 255 - M saturates at 0)
         let mut widths = vec![5usize, 8, 16, 30, 64, 255, 256, 257];
@@ -589,7 +679,7 @@ pub fn run(ctx: &mut Ctx, rep: &mut Report) {
                 }
                 let matrix = wide_matrix(m, fl);
                 let seq = wide_sequence(&matrix);
-                let case = Case { alpha: "dna", matrix, seq, origin: format!("wide M={} flavour={}", m, fl) };
+                let case = Case { alpha: "dna", matrix, seq, origin: format!("wide M={} flavour={}", m, fl), pre_wrap: None };
                 let (e, nt, fails) = check_case(&case, &kd);
                 report_prefilter(&case, rep);
                 for _ in 0..e {
@@ -601,6 +691,17 @@ pub fn run(ctx: &mut Ctx, rep: &mut Report) {
                 for (sig, msg, k) in fails {
                     rep.violation(format!("C08 dna {} {}", k.map(|k| k.name()).unwrap_or("-".into()), sig), msg, || case.json(k));
                 }
+                for pre in [2usize, m / 2] {
+                    let again = Case { pre_wrap: Some(pre), origin: format!("{} reconfigured from {} look-ahead rows", case.origin, pre), ..case.clone() };
+                    let (e, nt, fails) = check_case(&again, &kd);
+                    report_prefilter(&again, rep);
+                    for _ in 0..e {
+                        rep.eval_distinct(nt);
+                    }
+                    for (sig, msg, k) in fails {
+                        rep.violation(format!("C08 dna {} reconfigured {}", k.map(|k| k.name()).unwrap_or("-".into()), sig), msg, || again.json(k));
+                    }
+                }
             }
         }
         for &m in &[6usize, 15, 20] {
@@ -611,7 +712,7 @@ pub fn run(ctx: &mut Ctx, rep: &mut Report) {
             }
             let matrix = crate::c01::make_matrix("logodds", m, 5, 0);
             let seq = wide_sequence(&matrix);
-            let case = Case { alpha: "dna", matrix, seq, origin: format!("wide logodds M={}", m) };
+            let case = Case { alpha: "dna", matrix, seq, origin: format!("wide logodds M={}", m), pre_wrap: None };
             report_prefilter(&case, rep);
             let (e, nt, fails) = check_case(&case, &kd);
             for _ in 0..e {
@@ -636,7 +737,7 @@ pub fn run(ctx: &mut Ctx, rep: &mut Report) {
                 let best: Vec<u8> = matrix.iter().map(|r| (0..20).max_by(|&a, &b| r[a].partial_cmp(&r[b]).unwrap()).unwrap() as u8).collect();
                 seq.extend(&best);
                 seq.extend(&best);
-                let case = Case { alpha: "protein", matrix, seq, origin: format!("wide protein {} M={}", kind, m) };
+                let case = Case { alpha: "protein", matrix, seq, origin: format!("wide protein {} M={}", kind, m), pre_wrap: None };
                 let (e, nt, fails) = check_case(&case, &kp);
                 for _ in 0..e {
                     rep.eval_distinct(nt);
